@@ -33,7 +33,7 @@ def _reference():
     return _REF["r"], _REF["edges"]
 
 
-def _run(ncores, timeout, incs, sleeps, finish, prefix, term_ignored=False):
+def _run(ncores, timeout, incs, sleeps, finish, prefix, term_ignored=False, slack=4):
     ref, ref_edges = _reference()
     kernel = _build()
     g = DG(kernel, NativeParser(PX))
@@ -60,6 +60,9 @@ def _run(ncores, timeout, incs, sleeps, finish, prefix, term_ignored=False):
         ok = ok and not env.killed and clock.nsleep == 0
     else:
         ok = ok and clock.nsleep <= timeout + 1                                   # bounded polling
+        # returns within the timeout plus a bounded overhead (stub clock: one poll interval and one clock
+        # step past the deadline; joining a live worker would advance the clock to its completion instant)
+        ok = ok and clock.now - incs[0] <= timeout + slack
     with NoTracing():
         same_dg = sorted(g.dg.edges(data="latency")) == ref_edges                 # CP inputs untouched
     ok = ok and same_dg
@@ -103,7 +106,7 @@ def sched3(timeout: int, d0: int, d1: int, d2: int, s0: int, s1: int, f0: int, f
     t = pick(timeout, 4)
     pp = pick(p, 8)
     pre = [pp & 1, (pp >> 1) & 1, (pp >> 2) & 1]
-    ok, cut = _run(3, t, [d0, d1, d2], [s0, s1], [f0, f1, f2], pre)
+    ok, cut = _run(3, t, [d0, d1, d2], [s0, s1], [f0, f1, f2], pre, slack=6)
     return verdict(ok, nontrivial=cut, sample=lambda: {"timeout": t, "time_increments": [d0, d1, d2], "sleeps": [s0, s1], "finish": [f0, f1, f2], "prefix": pre})
 
 
@@ -134,5 +137,5 @@ META = {
     "bounds": "<= 3 workers, <= 4 polls, integer stub clock; 4-instruction kernel with threshold lowered",
     "outside": "wall-clock bounds, SIGKILL semantics, Manager-proxy behaviour when its client is killed mid-extend (assumed atomic)",
     "stubs": ["time.time/time.sleep, os.kill, multiprocessing.Manager/Process/cpu_count rebound in osaca.semantics.kernel_dg (harness/_procstub.py)"],
-    "assumptions": ["'cut short' = at least one worker was killed while still alive", "a killed worker has published an arbitrary prefix of its per-instruction chunks; join of an un-killed worker waits for its completion"],
+    "assumptions": ["'cut short' = at least one worker was killed while still alive", "'within the timeout plus a small bounded overhead' = stub clock at return <= first reading + timeout + largest possible poll interval + largest possible clock step of the cell (2+2 / 3+3)", "a killed worker has published an arbitrary prefix of its per-instruction chunks; join of an un-killed worker waits for its completion"],
 }
